@@ -17,9 +17,9 @@ from ..world import scen
 PROPERTY = "C07"
 LEVEL = "exploration"
 RULE = (
-    "(3-block modules over every pair of terminators x 5 function partitions incl. function-less code, a function named "
+    "(3-block modules over every pair of terminators x 7 function partitions incl. function-less code before, between and after functions, a function named "
     "main, entry point inside/outside a function, with and without function tables, a data block) x (AllBlocksScope x "
-    "3 positions x 5 exclusion filters, AllFunctionsScope x {ENTRY,EXIT} x 3 block positions x 3 filters, SingleBlockScope "
+    "3 positions x 6 exclusion filters (none, literal, regex, MAIN, ENTRYPOINT, empty set), AllFunctionsScope x {ENTRY,EXIT} x 3 block positions x 5 filters (incl. empty set and matching nothing), SingleBlockScope "
     "per block x 3 positions) for single registrations; ordered pairs and triples of registrations spread over 1-2 passes "
     "on a reduced module set; all through the real PassManager. A case is one PassManager.run(); non-trivial = the scope "
     "designates at least one block; distinct by (module, registrations)"
@@ -34,11 +34,12 @@ BOUNDS = {"quick": {"registrations": "1 (all), 2 (reduced)", "passes": 2}, "thor
 CAP_S = {"quick": 150, "thorough": 2400}
 
 TERMS = [None, ["jmp", "A"], ["jcc", "A"], ["call", "A"], ["ret"], ["ijmp"], ["icall"], ["syscall"]]
-FUNCS = (("f", "f", "g"), ("f", "g", "g"), (None, "f", "f"), ("main", "main", "g"), ("f", "f", "f"))
+FUNCS = (("f", "f", "g"), ("f", "g", "g"), (None, "f", "f"), ("main", "main", "g"), ("f", "f", "f"), ("f", None, "g"), ("f", "g", None))
 POS = ("ENTRY", "EXIT", "ANYWHERE")
 SCOPES = (
-    ["all", None], ["all", "lit"], ["all", "re"], ["all", "main"], ["all", "ep"],
+    ["all", None], ["all", "lit"], ["all", "re"], ["all", "main"], ["all", "ep"], ["all", "empty"],
     ["fn-entry", None], ["fn-exit", None], ["fn-entry", "lit-g"], ["fn-exit", "re"], ["fn-entry", "ep"],
+    ["fn-entry", "empty"], ["fn-exit", "empty"], ["fn-entry", "nomatch"],
     ["single", "A"], ["single", "B"], ["single", "C"],
 )
 
@@ -63,7 +64,8 @@ def build_scope(w, sc, pos):
 
     bp = getattr(BlockPosition, pos)
     kind, flt = sc
-    fset = {None: None, "lit": {"F_f"}, "re": {re.compile("F_[fg]")}, "main": {MAIN_NAME}, "ep": {ENTRYPOINT_NAME}, "lit-g": {"F_g"}}.get(flt)
+    fset = {None: None, "lit": {"F_f"}, "re": {re.compile("F_[fg]")}, "main": {MAIN_NAME}, "ep": {ENTRYPOINT_NAME}, "lit-g": {"F_g"},
+            "empty": set(), "nomatch": {"F_nope", re.compile("G_.*")}}.get(flt)
     if kind == "all":
         return AllBlocksScope(bp, fset)
     if kind == "fn-entry":
@@ -84,6 +86,8 @@ def func_matches(spec, fname, flt):
         return re.fullmatch("F_[fg]", sym) is not None
     if flt == "main":
         return sym == "main"
+    if flt in ("empty", "nomatch"):
+        return False  # a filter that is an empty set (or matches no name) selects no function
     if flt == "ep":
         _, b = Lg.block_of(spec, spec["entry_point"])
         return b.get("f") == fname and b.get("e")
